@@ -7,6 +7,7 @@ import random
 import struct
 from typing import Any, Callable, Dict, Iterator, List, Optional
 
+import core
 from core import Case, Prop, SelfCheckFailure, pack_stable
 from gen import hx, unhx, rbytes
 
@@ -20,7 +21,7 @@ from spacepackets.crc import CRC16_CCITT_FUNC
 
 from props.c06_fixed import (
     unpack_tolerant,
-    _conf, _pdu_common, _repack, _pack_fails, _enum, spec_pdu, spec_hdr, with_crc, fss, rand_conf, all_confs, fss_pool,
+    _conf, _pdu_common, _repack, _pack_fails, _enum, _code, spec_pdu, spec_hdr, with_crc, fss, rand_conf, all_confs, fss_pool,
     fss_val, fss_bad, rand_val, vmax, bad_conf_cases, CONF_KEYS, COND_MEMBERS, U32, U64,
     _built, _isolated, _eq_op, contrast_conf, detached,
 )
@@ -49,7 +50,7 @@ def _fault(h: Optional[str]) -> Optional[EntityIdTlv]:
 def _fault_field(t) -> Optional[str]:
     if t is None:
         return None
-    _need(int(t.tlv_type) == 6, "fault location is not an entity-ID TLV")
+    _need(_code(TlvType, t.tlv_type) == 6, "fault location is not an entity-ID TLV")
     return hx(t.value)
 
 
@@ -118,7 +119,7 @@ def _eof(a, conf=None) -> EofPdu:
 
 def _eof_fields(p: EofPdu, code=None):
     f = _pdu_common(p, code)
-    f.update(cond=int(p.condition_code), checksum=hx(p.file_checksum), size=int(p.file_size),
+    f.update(cond=_code(ConditionCode, p.condition_code), checksum=hx(p.file_checksum), size=int(p.file_size),
              fault=_fault_field(p.fault_location))
     return f
 
@@ -136,7 +137,7 @@ def op_eof_new(a):
 
 def op_eof_pack(a):
     def use(p):
-        _need(int(p.directive_type) == 4 and int(p.direction) == int(Direction.TOWARDS_RECEIVER),
+        _need(_code(DirectiveType, p.directive_type) == 4 and _code(Direction, p.direction) == 0,
               "EOF PDU constructed with another directive code / direction")
         f = _eof_check(p, pack_stable(p, "EofPdu.pack()"))
         f["raw"] = hx(p.pack())
@@ -186,11 +187,12 @@ def _fin_fields(p: FinishedPdu, code=None):
     f = _pdu_common(p, None)
     _need(int(p.packet_len) == f["packet_len"] and int(p.pdu_data_field_len) == f["dlen"],
           "packet_len / pdu_data_field_len of the PDU differ from those of its base")
-    _need(int(p.directive_type) == 5, "FinishedPdu.directive_type is not FINISHED_PDU")
+    _need(_code(DirectiveType, p.directive_type) == 5, "FinishedPdu.directive_type is not FINISHED_PDU")
     prm = p.finished_params
     _need(int(prm.condition_code) == int(p.condition_code) and int(prm.delivery_code) == int(p.delivery_code)
           and int(prm.file_status) == int(p.file_status), "finished_params and the PDU's views disagree")
-    f.update(cond=int(p.condition_code), delivery=int(p.delivery_code), status=int(p.file_status),
+    f.update(cond=_code(ConditionCode, p.condition_code), delivery=_code(DeliveryCode, p.delivery_code),
+             status=_code(FileStatus, p.file_status),
              responses=[_fsresp_fields(r) for r in (p.file_store_responses or [])], fault=_fault_field(p.fault_location),
              might=bool(p.might_have_fault_location), resp_len=int(p.file_store_responses_len))
     if code is not None:
@@ -225,7 +227,7 @@ def op_fin_new(a):
 
 def op_fin_pack(a):
     def use(p):
-        _need(int(p.pdu_file_directive.directive_type) == 5 and int(p.direction) == int(Direction.TOWARDS_SENDER),
+        _need(_code(DirectiveType, p.pdu_file_directive.directive_type) == 5 and _code(Direction, p.direction) == 1,
               "Finished PDU constructed with another directive code / direction")
         f = _fin_check(p, pack_stable(p, "FinishedPdu.pack()"))
         f["raw"] = hx(p.pack())
@@ -283,11 +285,11 @@ def _md_fields(p: MetadataPdu, code=None):
     _need(int(p.packet_len) == f["packet_len"] and int(p.pdu_data_field_len) == f["dlen"],
           "packet_len / pdu_data_field_len of the PDU differ from those of its base")
     _need(int(p.directive_param_field_len) == f["param_len"], "directive_param_field_len differs from that of the base")
-    _need(int(p.directive_type) == 7, "MetadataPdu.directive_type is not METADATA_PDU")
+    _need(_code(DirectiveType, p.directive_type) == 7, "MetadataPdu.directive_type is not METADATA_PDU")
     opts = p.options
-    f.update(closure=bool(p.closure_requested), ctype=int(p.checksum_type), size=int(p.file_size),
+    f.update(closure=bool(p.closure_requested), ctype=_code(ChecksumType, p.checksum_type), size=int(p.file_size),
              src_name=_name_field(lambda: p.source_file_name), dst_name=_name_field(lambda: p.dest_file_name),
-             options=None if opts is None else [{"type": int(o.tlv_type), "packet_len": int(o.packet_len),
+             options=None if opts is None else [{"type": _code(TlvType, o.tlv_type), "packet_len": int(o.packet_len),
                                                  "value": _tlv_value(o)} for o in opts])
     if code is not None:
         _need(f["code"] == code, f"directive code {f['code']} != {code}")
@@ -313,7 +315,7 @@ def op_md_new(a):
 
 def op_md_pack(a):
     def use(p):
-        _need(int(p.pdu_file_directive.directive_type) == 7 and int(p.direction) == int(Direction.TOWARDS_RECEIVER),
+        _need(_code(DirectiveType, p.pdu_file_directive.directive_type) == 7 and _code(Direction, p.direction) == 0,
               "Metadata PDU constructed with another directive code / direction")
         f = _md_check(p, pack_stable(p, "MetadataPdu.pack()"))
         f["raw"] = hx(p.pack())
@@ -635,6 +637,8 @@ class C06Var(Prop):
             d.append("directive codes of EOF / Finished / Metadata")
         if (int(TlvType.FILESTORE_RESPONSE), int(TlvType.ENTITY_ID)) != (1, 6):
             d.append("TlvType.FILESTORE_RESPONSE / ENTITY_ID")
+        # every member the ops use BY NAME against the tables of the standard (a swap leaves the set of values intact)
+        d += core.std_table_diffs((ChecksumType, DeliveryCode, FileStatus, ConditionCode, DirectiveType, TlvType, Direction))
         return d
 
     def nontrivial(self, c: Case) -> bool:
